@@ -29,6 +29,25 @@ fn tuples(widths: &[usize]) -> Vec<Vec<u64>> {
         })
         .collect();
     let mut out = vec![base.clone()];
+    // sparse tuples: every argument 0 (resp. all-ones) except none, one or two that keep their marker value
+    let n = widths.len();
+    for fill_max in [false, true] {
+        let filled: Vec<u64> = widths.iter().map(|&w| if !fill_max { 0 } else if w == 8 { u64::MAX } else { (1u64 << (8 * w)) - 1 }).collect();
+        for a in 0..=n {
+            for b2 in a..=n {
+                let mut t = filled.clone();
+                if a < n {
+                    t[a] = base[a];
+                }
+                if b2 < n {
+                    t[b2] = base[b2];
+                }
+                if !out.contains(&t) {
+                    out.push(t);
+                }
+            }
+        }
+    }
     for (i, &w) in widths.iter().enumerate() {
         let max = if w == 8 { u64::MAX } else { (1u64 << (8 * w)) - 1 };
         for v in [0, 1, max, max - 1, 1u64 << (8 * w - 1)] {
@@ -755,7 +774,7 @@ fn boxed(ctx: &mut Ctx) {
 
 fn run(ctx: &mut Ctx) {
     let arena = Arena::new(1);
-    ctx.bound("sized", "every sized constructor of both crates: a marker argument tuple, {0,1,MAX,MAX-1,0x80..} per argument, every pair of equal-width arguments set to one and the same value, a dictionary per argument (BCD versions 1.0..3.0, 0xB8000, 0xA0000, 1 MiB, every EDGE32 value that fits), every single-byte perturbation of every argument with {00,01,02,04,08,10,20,40,80,FF}; enumerated arguments over all variants; as_bytes() at every address residue the type's alignment permits");
+    ctx.bound("sized", "every sized constructor of both crates: a marker argument tuple, {0,1,MAX,MAX-1,0x80..} per argument, every pair of equal-width arguments set to one and the same value, sparse tuples (all arguments 0 resp. all-ones except none, one or two), a dictionary per argument (BCD versions 1.0..3.0, 0xB8000, 0xA0000, 1 MiB, every EDGE32 value that fits), every single-byte perturbation of every argument with {00,01,02,04,08,10,20,40,80,FF}; enumerated arguments over all variants; as_bytes() at every address residue the type's alignment permits");
     ctx.bound("boxed_elf_arguments", "ElfSectionsTag::new: number 0/1/3/0xFFFF x entry size 40/64/0/48 x string-table index over EDGE32 + {0xFF00, 0xFFF1, 0xFFF2, 0xFF1F, 40, 64} x 11 section-data lengths (0..=192 bytes)");
     ctx.bound("boxed_request_lists", "InformationRequestHeaderTag::new: every list of length 0..=4 over the ids {1, 6, 21, 0, 0x1337, 17} (repeated, unordered, specified and custom ids), both flags");
     ctx.bound("boxed_efi_map_arguments", "EFIMemoryMapTag::new_from_map: descriptor size {40, 48, 1, 8, 44, 0xFFFFFFFF} (0 is refused by a documented assertion) x version {0, 1, 2, a marker} x map lengths {0, 1, 39, 40, 41, 48, 80, 96, 120}, the argument slice 8-aligned and at an odd address");
